@@ -184,19 +184,23 @@ async fn resolve(nexus: &CognitiveNexus, text: &str) -> String {
     out
 }
 
-fn result_digest(r: &Result<Response, String>, digests: &mut Intern) -> i64 {
+fn result_text(r: &Result<Response, String>) -> String {
     match r {
-        Err(e) => digests.get(&format!("ERR:{e}")),
+        Err(e) => format!("ERR:{e}"),
         Ok(resp) => {
             if succeeded(resp) {
-                digests.get(&serde_json::to_string(&resp.first_result()).unwrap())
+                serde_json::to_string(&resp.first_result()).unwrap()
             } else {
                 let code = resp.results.iter().find_map(|x| x.error.as_ref().map(|e| e.code.clone()))
                     .or(resp.error.as_ref().map(|e| e.code.clone())).unwrap_or_default();
-                digests.get(&format!("FAIL:{code}"))
+                format!("FAIL:{code}")
             }
         }
     }
+}
+
+fn result_digest(r: &Result<Response, String>, digests: &mut Intern) -> i64 {
+    digests.get(&result_text(r))
 }
 
 async fn battery(nexus: &CognitiveNexus, queries: &[String], coord: &str, digests: &mut Intern) -> Vec<i64> {
@@ -304,6 +308,118 @@ async fn run_history(h: &Value, tx: &mut Vec<Value>, hist: &mut Vec<Value>, stat
     }
 }
 
+// ---------------------------------------------------------------------------------------------
+// readers against a committing writer: the writer's backend mutations are parked one by one; at every
+// parked mutation a reader runs the battery through the nexus (so through its lock) with a deadline
+
+async fn run_conc(h: &Value, tx: &mut Vec<Value>, stats: &mut (u64, u64, u64, u64)) {
+    use verif_harness::nexus::fresh_on;
+    use verif_harness::tracestore::TraceStore;
+    let name = h["name"].as_str().unwrap();
+    let (ts, handle) = TraceStore::wrap(Arc::new(object_store::memory::InMemory::new()));
+    handle.keep_payload(false);
+    let nexus = Arc::new(fresh_on(ts, &format!("c{}", stats.0)).await);
+    stats.0 += 1;
+    let mut digests = Intern::default();
+    let queries: Vec<String> = h["battery"].as_array().unwrap().iter().map(|x| x.as_str().unwrap().to_string()).collect();
+    tx.push(json!({"e": "reset", "tag": name}));
+    for (i, s) in h["stmts"].as_array().unwrap().iter().enumerate() {
+        let text = resolve(&nexus, s["text"].as_str().unwrap()).await;
+        let pre = battery(&nexus, &queries, "", &mut digests).await;
+        handle.sched_enable(true);
+        let writer = {
+            let nexus = nexus.clone();
+            let text = text.clone();
+            let params = s["params"].clone();
+            tokio::spawn(async move { run_cmd(&nexus, &text, &params, false).await.map(|r| succeeded(&r)) })
+        };
+        let mut reads: Vec<Value> = Vec::new();
+        let mut k = 0u64;
+        let started = std::time::Instant::now();
+        loop {
+            if writer.is_finished() {
+                break;
+            }
+            let parked = handle.parked();
+            if parked.is_empty() {
+                tokio::time::sleep(std::time::Duration::from_micros(300)).await;
+                if started.elapsed() > std::time::Duration::from_secs(20) {
+                    break;
+                }
+                continue;
+            }
+            // a reader while the writer sits at this backend operation
+            if parked[0].op.is_mutation() {
+                k += 1;
+            }
+            if parked[0].op.is_mutation() && (k <= 6 || k % 4 == 0) {
+                let reader = {
+                    let nexus = nexus.clone();
+                    let queries = queries.clone();
+                    tokio::spawn(async move {
+                        let mut out = Vec::new();
+                        for q in &queries {
+                            let text = q.replace("{coord}", "");
+                            let r = run_cmd(&nexus, &text, &json!({}), false).await;
+                            out.push(result_text(&r));
+                        }
+                        out
+                    })
+                };
+                // the reader's own backend reads must not be held up
+                let deadline = std::time::Instant::now() + std::time::Duration::from_millis(6);
+                let mut done = None;
+                let mut reader = reader;
+                while std::time::Instant::now() < deadline {
+                    for p in handle.parked() {
+                        if !p.op.is_mutation() {
+                            handle.release(p.ticket);
+                        }
+                    }
+                    if reader.is_finished() {
+                        done = Some((&mut reader).await.unwrap());
+                        break;
+                    }
+                    tokio::time::sleep(std::time::Duration::from_micros(300)).await;
+                }
+                match done {
+                    Some(texts) => reads.push(json!([k, texts.iter().map(|t| digests.get(t)).collect::<Vec<_>>()])),
+                    None => {
+                        reads.push(json!([k, []]));
+                        // blocked on the nexus lock: it finishes once the writer is through
+                        let nexus2 = nexus.clone();
+                        let _ = nexus2;
+                        tokio::spawn(async move {
+                            let _ = reader.await;
+                        });
+                    }
+                }
+                stats.3 += 1;
+            }
+            for p in handle.parked() {
+                handle.release(p.ticket);
+                break;
+            }
+        }
+        let wrote = writer.await.unwrap();
+        handle.sched_enable(false);
+        // let stragglers (blocked readers) drain
+        for _ in 0..50 {
+            for p in handle.parked() {
+                handle.release(p.ticket);
+            }
+            tokio::time::sleep(std::time::Duration::from_micros(200)).await;
+        }
+        let post = battery(&nexus, &queries, "", &mut digests).await;
+        let pre_d: Vec<i64> = pre.clone();
+        let post_d: Vec<i64> = post.clone();
+        // the battery digests from `battery` are digests of results; the readers' are digests of the same strings
+        tx.push(json!({"e": "conc", "i": i, "ok": wrote.unwrap_or(false), "pre": pre_d, "post": post_d, "reads": reads,
+                       "text": text.chars().take(120).collect::<String>()}));
+        stats.1 += 1;
+    }
+}
+
 fn main() {
     let args: Vec<String> = std::env::args().collect();
     let rt = tokio::runtime::Builder::new_current_thread().enable_all().build().unwrap();
@@ -343,6 +459,26 @@ fn main() {
             }
             println!("{}", json!({"summary": true, "histories": stats.0, "statements": stats.1, "refused": stats.2,
                                   "queries": stats.3, "tx_events": tx.len(), "hist_events": hist.len()}));
+        }
+        "conc" => {
+            let f = std::io::BufReader::new(std::fs::File::open(&args[2]).unwrap());
+            let mut tx = Vec::new();
+            let mut stats = (0u64, 0u64, 0u64, 0u64);
+            let rt = tokio::runtime::Builder::new_multi_thread().worker_threads(3).enable_all().build().unwrap();
+            for l in f.lines() {
+                let l = l.unwrap();
+                if l.trim().is_empty() {
+                    continue;
+                }
+                let h: Value = serde_json::from_str(&l).unwrap();
+                rt.block_on(run_conc(&h, &mut tx, &mut stats));
+            }
+            let mut out = std::io::BufWriter::new(std::fs::File::create(&args[3]).unwrap());
+            writeln!(out, "{}", json!({"e": "hdr", "maxid": 1, "maxver": 1})).unwrap();
+            for e in &tx {
+                writeln!(out, "{}", e).unwrap();
+            }
+            println!("{}", json!({"summary": true, "histories": stats.0, "statements": stats.1, "reads": stats.3}));
         }
         m => panic!("mode {m}"),
     }
